@@ -288,3 +288,55 @@ M2('c02-meta-guard-moved-to-routed-branch', 'C02', 'R6', [
         else:
             params = {}
 """}])
+
+# ---- wave 6
+# R2: every normal return of the registration functions has inserted the new entry
+M('c02-static-skips-exact-duplicate', 'C02', 'R2', APP,
+  """        self._static_routes.insert(0, (sr, sr, False))
+""", """        if any(vars(route) == vars(sr) for route, _, _ in self._static_routes):
+            return
+
+        self._static_routes.insert(0, (sr, sr, False))
+""")
+M('c02-sink-skips-registered-pattern', 'C02', 'R2', APP,
+  """        self._sinks.insert(0, (prefix, sink, True))
+""", """        for pattern, registered, _ in self._sinks:
+            if pattern.pattern == prefix.pattern and registered is sink:
+                return
+        self._sinks.insert(0, (prefix, sink, True))
+""")
+M('c02-static-insert-only-when-absent', 'C02', 'R2', APP,
+  """        self._static_routes.insert(0, (sr, sr, False))
+""", """        if not any(route._prefix == sr._prefix and route._directory == sr._directory for route, _, _ in self._static_routes):
+            self._static_routes.insert(0, (sr, sr, False))
+""")
+
+# R7: match() decides on the raw request path
+STATIC = 'falcon/routing/static.py'
+M2('c02-static-match-pathlib', 'C02', 'R7', [
+    {'file': STATIC, 'old': "from pathlib import Path\n", 'new': "from pathlib import Path\nfrom pathlib import PurePosixPath\n"},
+    {'file': STATIC, 'old': "        return path.startswith(self._prefix) or path == self._prefix[:-1]\n",
+     'new': "        route, requested = PurePosixPath(self._prefix), PurePosixPath(path)\n"
+            "        return requested == route or route in requested.parents\n"}])
+M('c02-static-match-collapses-leading-slashes', 'C02', 'R7', STATIC,
+  "        return path.startswith(self._prefix) or path == self._prefix[:-1]\n",
+  "        path = '/' + path.lstrip('/')\n"
+  "        return path.startswith(self._prefix) or path == self._prefix[:-1]\n")
+M('c02-static-match-normpath', 'C02', 'R7', STATIC,
+  """        if self._fallback_filename is None:
+            return path.startswith(self._prefix)
+""", """        if self._fallback_filename is None:
+            return (os.path.normpath(path) + '/').startswith(self._prefix)
+""")
+M('c02-static-match-case-insensitive', 'C02', 'R7', STATIC,
+  """        if self._fallback_filename is None:
+            return path.startswith(self._prefix)
+""", """        if self._fallback_filename is None:
+            return path.lower().startswith(self._prefix.lower())
+""")
+M('c02-static-match-bare-prefix-without-fallback', 'C02', 'R7', STATIC,
+  """        if self._fallback_filename is None:
+            return path.startswith(self._prefix)
+""", """        if self._fallback_filename is None:
+            return path.startswith(self._prefix) or path == self._prefix[:-1]
+""")
